@@ -512,7 +512,8 @@ class Interp(EvalMixin):
                     frm = cur.members if isinstance(cur, StatusV) else self.ALL
                     to = v.members if isinstance(v, StatusV) else self.ALL
                     st.emit(ev("status_write", self.site(st, stmt), oid=ref.oid, okind=o.kind, origin=o.origin, frm=frm, to=to,
-                               ctx=self.ctx(st), validated=self._validated(st, ref, to), text=" ".join(ast.unparse(stmt).split())))
+                               ctx=self.ctx(st), validated=self._validated(st, ref, to), own=self.is_own(st, ref), loop=st.lp(),
+                               text=" ".join(ast.unparse(stmt).split())))
                     st.set_attr(ref, "status", v if isinstance(v, StatusV) else StatusV(self.ALL))
                 else:
                     if t.attr == "context":
@@ -563,7 +564,7 @@ class Interp(EvalMixin):
                 for s2, v in self.eval(item.context_expr, s, abrupt):
                     if isinstance(v, Txn):
                         s2.txn = s2.txn + (v.tid,)
-                        s2.emit(ev("txn_begin", self.site(s2, node), tid=v.tid, ctx=self.ctx(s2)))
+                        s2.emit(ev("txn_begin", self.site(s2, node), tid=v.tid, ctx=self.ctx(s2), owns=self.own_statuses(s2)))
                         txns.append(v.tid)
                     if item.optional_vars is not None:
                         self.assign_target(item.optional_vars, v, s2, node)
